@@ -355,12 +355,132 @@ impl<T: TU> GQ<T> {
                 return Err(format!("draining by pop yields {got} of {n} elements"));
             }
         }
+        self.iterator_contracts(m)?;
         let v: Vec<(T::I, T::P)> = match self.clone() {
             GQ::P(q) => q.into_sorted_iter().collect(),
             GQ::D(q) => q.into_sorted_iter().rev().collect(),
         };
         if v.len() != n || v.windows(2).any(|w| w[0].1 < w[1].1) {
             return Err(format!("sorted consumption is not every element once in non-increasing order: {v:?}"));
+        }
+        Ok(())
+    }
+
+    /// Every program over {next, next_back} of length n + 2 on every iterator the two kinds offer, with
+    /// len() / size_hint() read before every call: each stored element exactly once, never from both
+    /// ends, the declared length exact, None for ever after exhaustion.
+    fn iterator_contracts(&self, m: &Model) -> Result<(), String> {
+        let n = m.iter().filter(|x| x.is_some()).count();
+        fn de<X, It: DoubleEndedIterator<Item = X> + ExactSizeIterator>(what: &str, mk: &mut dyn FnMut() -> It, key: &dyn Fn(&X) -> Result<usize, String>, n: usize) -> Result<(), String> {
+            let len = n + 2;
+            for prog in 0u32..(1 << len) {
+                let mut it = mk();
+                let mut seen: Vec<usize> = vec![];
+                for step in 0..len {
+                    let left = n - seen.len();
+                    let (lo, hi) = it.size_hint();
+                    if it.len() != left || lo != left || hi != Some(left) {
+                        return Err(format!("{what}: len() = {}, size_hint() = ({lo}, {hi:?}) with {left} elements left (program {prog:#b}, step {step})", it.len()));
+                    }
+                    let x = if prog >> step & 1 == 1 { it.next_back() } else { it.next() };
+                    match x {
+                        None => {
+                            if left != 0 {
+                                return Err(format!("{what}: None with {left} elements left (program {prog:#b}, step {step})"));
+                            }
+                        }
+                        Some(x) => {
+                            let k = key(&x)?;
+                            if left == 0 || seen.contains(&k) {
+                                return Err(format!("{what}: element {k} yielded twice or after exhaustion (program {prog:#b}, step {step})"));
+                            }
+                            seen.push(k);
+                        }
+                    }
+                }
+            }
+            Ok(())
+        }
+        fn fw<X, It: Iterator<Item = X>>(what: &str, mk: &mut dyn FnMut() -> It, key: &dyn Fn(&X) -> Result<usize, String>, n: usize) -> Result<(), String> {
+            let mut it = mk();
+            let mut seen: Vec<usize> = vec![];
+            for step in 0..(n + 3) {
+                let left = n - seen.len();
+                let (lo, hi) = it.size_hint();
+                if lo > left || hi.map_or(false, |h| h < left) {
+                    return Err(format!("{what}: size_hint() = ({lo}, {hi:?}) with {left} elements left (step {step})"));
+                }
+                match it.next() {
+                    None => {
+                        if left != 0 {
+                            return Err(format!("{what}: None with {left} elements left"));
+                        }
+                    }
+                    Some(x) => {
+                        let k = key(&x)?;
+                        if left == 0 || seen.contains(&k) {
+                            return Err(format!("{what}: element {k} yielded twice or after exhaustion"));
+                        }
+                        seen.push(k);
+                    }
+                }
+            }
+            Ok(())
+        }
+        let kr = |x: &(&T::I, &T::P)| item_ix::<T>(x.0);
+        let km = |x: &(&mut T::I, &mut T::P)| item_ix::<T>(x.0);
+        let ko = |x: &(T::I, T::P)| item_ix::<T>(&x.0);
+        match self {
+            GQ::P(q) => {
+                de("iter()", &mut || q.iter(), &kr, n)?;
+                de("(&queue).into_iter()", &mut || (&*q).into_iter(), &kr, n)?;
+                de("into_iter()", &mut || q.clone().into_iter(), &ko, n)?;
+                let mut c = q.clone();
+                fw("iter_mut()", &mut || unsafe { &mut *(&mut c as *mut PriorityQueue<T::I, T::P, H>) }.iter_mut(), &km, n)?;
+                fw("into_sorted_iter()", &mut || q.clone().into_sorted_iter(), &ko, n)?;
+            }
+            GQ::D(q) => {
+                de("iter()", &mut || q.iter(), &kr, n)?;
+                de("(&queue).into_iter()", &mut || (&*q).into_iter(), &kr, n)?;
+                de("into_iter()", &mut || q.clone().into_iter(), &ko, n)?;
+                de("into_sorted_iter()", &mut || q.clone().into_sorted_iter(), &ko, n)?;
+                let mut c = q.clone();
+                de("iter_mut()", &mut || unsafe { &mut *(&mut c as *mut DoublePriorityQueue<T::I, T::P, H>) }.iter_mut(), &km, n)?;
+            }
+        }
+        // drain needs a fresh clone per program: one full program from each end and one alternating
+        for pattern in 0..3 {
+            let mut c = self.clone();
+            let mut got = 0;
+            macro_rules! go {
+                ($q:expr) => {{
+                    let mut d = $q.drain();
+                    for step in 0..(n + 2) {
+                        if d.len() != n - got {
+                            return Err(format!("drain(): len() = {} with {} elements left", d.len(), n - got));
+                        }
+                        let x = match pattern {
+                            0 => d.next(),
+                            1 => d.next_back(),
+                            _ => {
+                                if step % 2 == 0 {
+                                    d.next()
+                                } else {
+                                    d.next_back()
+                                }
+                            }
+                        };
+                        got += x.is_some() as usize;
+                    }
+                }};
+            }
+            match &mut c {
+                GQ::P(q) => go!(q),
+                GQ::D(q) => go!(q),
+            }
+            if got != n || c.len() != 0 {
+                return Err(format!("drain() yielded {got} of {n} elements, the queue then holds {}", c.len()));
+            }
         }
         Ok(())
     }
